@@ -37,6 +37,11 @@ def first : List UInt8 → Except Exc Int
   | [] => .error .indexError
   | b :: _ => .ok (b.toNat : Int)
 
+/-- an int-or-None attribute used as a number: TypeError when it is None -/
+def optGet : Option Int → Except Exc Int
+  | some v => .ok v
+  | none => .error .typeError
+
 /-- an object reference compared with `is` (a socket): an identifier, 0 = None -/
 abbrev Ref := Int
 
